@@ -6,5 +6,5 @@ for L in A B C D E F G H I J K L M N O P; do [ -d /verif/seeded/$X-$L ] || break
 ID=$X-$L
 export SEED_ROUND_TEXT="${SEED_ROUND_TEXT:-independent sub-agent (sixth round: given the property text, its own scratch worktree and abridged summaries of all earlier seeded changes for this property, not to be repeated)}"
 /venv/bin/python /verif/tools/seed_add.py "$D" "$X" "$ID" "$X" "$@" >/dev/null
-nohup /verif/tools/confirm_seeded.sh $ID > /tmp/seeded_confirm/$ID.log 2>&1 &
+true
 echo $ID
